@@ -33,6 +33,7 @@ inductive SCall
   | pipe
   | getfd (fd : Nat)
   | setfd (fd : Nat) (flags : Nat)
+  | dupfd (fd : Nat)     -- `File::try_clone`: `fcntl(fd, F_DUPFD_CLOEXEC, 3)`, a close-on-exec copy at or above 3
   | fork
   | close (fd : Nat)
   | readStatus (fd : Nat)
@@ -220,6 +221,8 @@ def pipeFds (o : Option (Nat × Nat)) : List Nat := match o with | some (r, w) =
 /-- the steps `os_start` takes before the fork, each of which may fail -/
 inductive Acq
   | statusPipe                     -- `posix::pipe()` for the launch-status channel
+  | relocateStatusW                -- write end on 0-2 (a caller with closed standard descriptors): moved above 2
+  | releaseLow                     -- the original of a moved write end is dropped once the stream pipes exist
   | cloexecStatusR | cloexecStatusW
   | check (ok : Bool) (r : Res)    -- a test that issues no system call (invalid combination, NUL byte)
   | streamPipe (i : Nat)           -- `prepare_pipe` for stream `i`
@@ -234,6 +237,8 @@ structure AState where
   status : Option (Nat × Nat) := none
   pipes : Pipes := {}              -- stream pipes that were set up completely
   marked : List Nat := []          -- descriptors on which close-on-exec was set successfully
+  low : Option Nat := none         -- the original (0-2) of a relocated status write end, while it is kept open
+  released : List Nat := []        -- ghost: descriptors the attempt has closed again before the fork, by design
   deriving Repr
 
 def setPipe (p : Pipes) (i : Nat) (v : Option (Nat × Nat)) : Pipes :=
@@ -270,6 +275,26 @@ def acquire (a : Acq) (s : AState) (rs : List SResp) : AOut :=
      | .fds sr sw :: rs =>
        ⟨{ s with calls := s.calls ++ [.pipe], owned := s.owned ++ [sr, sw], got := s.got ++ [sr, sw], status := some (sr, sw) }, none, rs⟩
      | _ :: rs => ⟨{ s with calls := s.calls ++ [.pipe] }, some .stuck, rs⟩)
+  | .relocateStatusW =>
+    (match s.status with
+     | none => ⟨s, some .stuck, rs⟩
+     | some (sr, sw) =>
+       if sw ≤ 2 then
+         (match rs with
+          | [] => ⟨{ s with calls := s.calls ++ [.dupfd sw] }, some .stuck, []⟩
+          | .err e :: rs => ⟨{ s with calls := s.calls ++ [.dupfd sw] }, some (.err e), rs⟩
+          | .val n :: rs =>
+            -- F_DUPFD_CLOEXEC with a minimum of 3: an answer below 3 is not an answer of this call
+            if n ≤ 2 then ⟨{ s with calls := s.calls ++ [.dupfd sw] }, some .stuck, rs⟩ else
+            ⟨{ s with calls := s.calls ++ [.dupfd sw], owned := s.owned ++ [n], got := s.got ++ [n],
+                      status := some (sr, n), low := some sw }, none, rs⟩
+          | _ :: rs => ⟨{ s with calls := s.calls ++ [.dupfd sw] }, some .stuck, rs⟩)
+       else ⟨s, none, rs⟩)
+  | .releaseLow =>
+    (match s.low with
+     | none => ⟨s, none, rs⟩
+     | some l => ⟨{ s with calls := s.calls ++ [.close l], owned := s.owned.erase l, released := s.released ++ [l],
+                           low := none }, none, rs.drop 1⟩)
   | .cloexecStatusR =>
     (match s.status with
      | none => ⟨s, some .stuck, rs⟩
@@ -301,13 +326,13 @@ def acquireAll : List Acq → AState → List SResp → AOut
 
 /-- the pre-fork steps of `os_start` for this configuration, in source order -/
 def stagesOf (c : Cfg) : List Acq :=
-  [.statusPipe, .cloexecStatusR, .cloexecStatusW,
+  [.statusPipe, .relocateStatusW, .cloexecStatusR, .cloexecStatusW,
    .check (!(c.sout = .merge && c.serr = .merge)) .logic,
    .check (!(c.sin = .merge)) .logic] ++
   (if c.sin = .pipe then [.streamPipe 0] else []) ++
   (if c.sout = .pipe then [.streamPipe 1] else []) ++
   (if c.serr = .pipe then [.streamPipe 2] else []) ++
-  [.check (!c.nul) (.err EINVAL), .forkStep]
+  [.releaseLow, .check (!c.nul) (.err EINVAL), .forkStep]
 
 /-- what the parent does with the answer to the status read (`calls` = everything issued so far,
     the read included) -/
